@@ -40,7 +40,8 @@ RULE = ("scenarios = {seed, event-queue (LLSD and garbage body), wrapper, asset 
         ". Round-5 additions: flows taken in a hook and released from a task scheduled through the addon API (default and unscoped) while region change(s), neighbour registration, circuit creation, another flow or another session's end happen in between - incl. the library's own WebAppCapAddon serving a proxy-only cap; wait_for() with the caller's timeout on the session / region HTTP message handler: served, timed out, cancelled then timed out, timed out then cancelled"
         ". Round 6: which of the two avatars logged in first alternates"
         ". Round 8: an addon answers a request with preempt() after the request event was handed back (other flows in between): response and flags reach the mitmproxy side's flow, intercepted and resumed once more"
-        ". Round 9: the flow's avatar logs out while the other avatar stays - while an addon holds the flow, and between the request and the response event of a whole cycle")
+        ". Round 9: the flow's avatar logs out while the other avatar stays - while an addon holds the flow, and between the request and the response event of a whole cycle"
+        ". Round 10: a flow handed back after 0 / 300 / 1023 / 1024 / 1500+ other flows went through the mitmproxy-side addon; an addon rewriting a wrapper-capability request (what is sent on is the rewritten request with the asset host put in)")
 ASSUMPTIONS = [
     "a failpoint is any repository function entered while _handle_request/_handle_response is on the stack (including "
     "addon dispatch and the hooks' own calls); the cross-process hand-back code itself (resume/get_state) is not faulted",
